@@ -19,7 +19,7 @@ RULE = ('inputs: Hypothesis text() over the full code-point range (surrogates, N
         'exceeds the process-level watchdog twice (each case runs in a child interpreter that is killed on timeout); the first quoted text of a syntax-error message occurs in the input at the '
         'quoted line:column. non-trivial = input containing a string/regex/comment opener or >= 2 tokens '
         '(white-space separated pieces or punctuation mix); distinct by text')
-ASSUMPTIONS = ['termination is judged by a generous per-case watchdog (20 s, re-run once with 60 s); a trip is '
+ASSUMPTIONS = ['RecursionError is tolerated for deeply nested inputs (a bound of the interpreter), not for long flat ones', 'termination is judged by a generous per-case watchdog (20 s, re-run once with 60 s); a trip is '
                'reported only when it repeats',
                'message formats are the library\'s own stable formats; messages without a quoted text + L:C are not checked']
 
@@ -251,8 +251,25 @@ def check_text(acc, text, opens, origin):
                          {'bucket': 'message:' + re.sub(r'\d+', 'N', out[1])[:40], 'message': out[1],
                           'mismatch': bad, 'mode': mode}, opens)
         elif out[0] == 'recursion':
-            acc.skipped['recursion_limit'] += 1
+            # the interpreter's recursion limit is an accepted bound on *nesting*; a text that is long but
+            # flat (no brackets nested deeper than a few dozen) has no business hitting it
+            if bracket_depth(text) < 40 and mode in ('parse', 'parse_wc') and origin == 'runs':
+                acc.fail(None, {'text': text, 'mode': mode, 'origin': origin},
+                         {'bucket': 'RecursionError_on_flat_input', 'length': len(text), 'mode': mode}, opens)
+            else:
+                acc.skipped['recursion_limit'] += 1
     return labels
+
+
+def bracket_depth(text):
+    depth = best = 0
+    for ch in text:
+        if ch in '([{':
+            depth += 1
+            best = max(best, depth)
+        elif ch in ')]}':
+            depth = max(0, depth - 1)
+    return best
 
 
 def _default_root():
@@ -327,7 +344,7 @@ RUN_UNITS = [u'\u0301', u'\u0300\u0301', 'a', 'a1', '\\', '(', ')', '[', '/*', '
              '\n', u'\u203f', '\\u0061', '=', 'x=', '/a', '*', '{', '}', ';', ',', '?a:', 'a.']
 RUN_CONTEXTS = ['%s', 'get %s(', 'set\n%s (', 'var get;\nget\na%s = 1;', 'x = {get a%s(){}}', 'x = /%s', 'x = /[%s', "'%s",
                 '"\\%s', 'a%s', 'a%s;', '/*%s', '//%s', 'x = 1%s', 'return\n%s;', 'a\n++%s', 'return\n%sx', 'break\n%sa()',
-                'a = b\n%s++c', 'x = {get%s(){}}', 'throw /*c*/\n%se']
+                'a = b\n%s++c', 'x = {get%s(){}}', 'throw /*c*/\n%se', '%sz;', 'x = %sz;', 'f(%sz);']
 
 
 def run_texts():
@@ -335,6 +352,11 @@ def run_texts():
         for unit in RUN_UNITS:
             for n in (33, 48, 600):
                 yield ctx % (unit * n)
+    # long flat expressions (left-nested trees) as statement, initialiser and argument
+    for ctx in ('%sz;', 'x = %sz;', 'f(%sz);', 'if (%sz) y;'):
+        for unit in ('a + ', 'a.', 'f().', 'a[0].', 'a, ', 'a || ', 'a = ', 'a ? b : '):
+            yield ctx % (unit * 1500)
+            yield ctx % (unit * 6000)
 
 
 def run_shard(shard):
